@@ -2,6 +2,7 @@
 //!   seq-replay   spec -> impl: replay TLC-generated sequential cases, compare with the L1 prediction, write the
 //!                traces of every disagreeing execution (and a sample of agreeing ones) for TLC trace validation
 mod conc;
+mod fuzz;
 mod seq;
 mod term;
 
@@ -18,6 +19,7 @@ fn main() {
   match cmd.as_str() {
     "seq-replay" => seq_replay(),
     "seq-one" => seq_one(),
+    "seq-fuzz" => seq_fuzz(),
     "conc" => conc_explore(),
     "conc-one" => conc_one(),
     _ => {
@@ -190,4 +192,42 @@ fn conc_one() {
   for l in lines {
     println!("{l}");
   }
+}
+
+/// random pipelines with adaptively chosen stimuli; every recorded execution goes to TLC (RxSeqTrace)
+fn seq_fuzz() {
+  let n: u64 = arg("--n").and_then(|s| s.parse().ok()).unwrap_or(500);
+  let seed: u64 = arg("--seed").and_then(|s| s.parse().ok()).unwrap_or(1);
+  let shard: u64 = arg("--shard").and_then(|s| s.parse().ok()).unwrap_or(0);
+  let of: u64 = arg("--of").and_then(|s| s.parse().ok()).unwrap_or(1);
+  let max_stims: usize = arg("--max-stims").and_then(|s| s.parse().ok()).unwrap_or(6);
+  let ill = arg("--ill").is_some();
+  let mut out = std::io::BufWriter::new(std::fs::File::create(arg("--out").expect("--out")).unwrap());
+  let mut ops: BTreeMap<String, u64> = BTreeMap::new();
+  let (mut cases, mut nontrivial) = (0u64, 0u64);
+  for i in 0..n {
+    if i % of != shard {
+      continue;
+    }
+    let (case, run) = fuzz::fuzz_case(seed.wrapping_mul(1_000_003).wrapping_add(i), max_stims, ill);
+    // values outside the integer-coding domain (nested encodings) are not recorded: TLC integers are 32 bit
+    if run.stims.iter().any(|s| s.obs.iter().any(|e| e.v.abs() > 10_000_000 && e.v < term::OBS_BASE)) {
+      continue;
+    }
+    cases += 1;
+    if run.stims.iter().any(|s| s.obs.iter().any(|e| e.o == "cb")) {
+      nontrivial += 1;
+    }
+    let mut o = vec![];
+    case.root.ops(&mut o);
+    for x in o {
+      *ops.entry(x).or_default() += 1;
+    }
+    let mut lines = vec![];
+    seq::trace_lines(900_000_000 + i, &case, &run, &mut lines);
+    for l in lines {
+      writeln!(out, "{l}").unwrap();
+    }
+  }
+  println!("{}", serde_json::json!({"cases": cases, "nontrivial": nontrivial, "ops": ops}));
 }
